@@ -11,8 +11,8 @@ import (
 	"strings"
 )
 
-// mutationSelfCheck (thorough tier): every seeded property-breaking change under <verif>/seeded that is recorded as caught
-// by this property's check is applied to a scratch copy of the CURRENT working tree of the repository (outside /repo and
+// mutationSelfCheck (thorough tier): every seeded property-breaking change under <verif>/seeded that was written against
+// this property and is recorded as caught by its check is applied to a scratch copy of the CURRENT working tree of the repository (outside /repo and
 // /verif) and re-analysed in a child process; the check must fire on the copy. A patch that no longer applies to the
 // current tree is skipped and noted. This is the standing positive example for rules whose finding count on the real
 // tree is zero; nothing is executed, the copies are only analysed.
@@ -36,7 +36,33 @@ func (c *C) mutationSelfCheck(verif string) {
 	}
 	sort.Strings(names)
 	tried, fired, skipped := 0, 0, 0
+	// Every scratch copy is compiled under its own path and would add ~0.3 GB to the shared Go build cache (a few hundred
+	// copies fill a disk): the children get a hard-linked clone of a cache that was warmed once on the repository itself,
+	// and the clone goes away with the copy.
+	warm, err := os.MkdirTemp("", "rgcache-")
+	if err != nil {
+		c.AddNote("cannot create scratch dir: %v", err)
+		return
+	}
+	defer os.RemoveAll(warm)
+	{
+		wv := filepath.Join(warm, "verif")
+		os.MkdirAll(wv, 0o755)
+		if b, err := os.ReadFile(filepath.Join(verif, "known_findings.json")); err == nil {
+			os.WriteFile(filepath.Join(wv, "known_findings.json"), b, 0o644)
+		}
+		w := exec.Command(self, "-prop", c.Prop, "-tier", "quick", "-repo", c.P.Repo, "-verif", wv)
+		w.Env = append(os.Environ(), "RG_WORK="+filepath.Join(warm, "work"), "GOCACHE="+filepath.Join(warm, "gocache"))
+		w.CombinedOutput()
+		os.RemoveAll(wv)
+		os.RemoveAll(filepath.Join(warm, "work"))
+	}
 	for _, name := range names {
+		// the standing positive examples of a property are the changes written against it; the changes written against
+		// other properties that this check also reports are covered by tools/regress.sh
+		if !strings.HasPrefix(name, c.Prop) {
+			continue
+		}
 		dir := filepath.Join(seedRoot, name)
 		mb, err := os.ReadFile(filepath.Join(dir, "meta.json"))
 		if err != nil {
@@ -85,6 +111,11 @@ func (c *C) mutationSelfCheck(verif string) {
 			}
 			child := exec.Command(self, "-prop", c.Prop, "-tier", "quick", "-repo", filepath.Join(scratch, "repo"), "-verif", filepath.Join(scratch, "verif"))
 			child.Env = append(os.Environ(), "RG_WORK="+filepath.Join(scratch, "work"))
+			if _, err := os.Stat(filepath.Join(warm, "gocache")); err == nil {
+				if exec.Command("cp", "-al", filepath.Join(warm, "gocache"), filepath.Join(scratch, "gocache")).Run() == nil {
+					child.Env = append(child.Env, "GOCACHE="+filepath.Join(scratch, "gocache"))
+				}
+			}
 			out, _ := child.CombinedOutput()
 			got := strings.Contains(string(out), "VIOLATION property="+c.Prop)
 			var rules []string
